@@ -21,7 +21,7 @@ CHECKS = {
             "For every generated input the fault point ranges over all byte offsets of the input (read) and of the fault-free output (write, also stderr), each a real execution; the oracle demands Err, no panic, no read after the error and prefix-of-fault-free output; error kinds vary with the offset; write faults are also transient (one failing call, then the sink takes bytes again: no write call may follow) and also hit runs whose input is a file in a directory argument; read faults are also transient, and files whose read fails (links to /proc/self/mem, named directly or met inside a directory, also under names that are not UTF-8) must end the run with an error.",
             "Inputs, pipelines and policies are sampled (exhaustive over offsets, not over inputs); file read faults are not injectable at this boundary.", "5 C16"),
     "C17": ("exploration", "runtime monitoring: differential oracle over delivery forms (read schedules with Interrupted, stdin vs file, 1-4 files) plus a span model from the generator for the input-context selectors",
-            "Each generated stream is delivered in five forms and as file partitions (also cut inside a value); rows carrying all seven input-context selectors are compared across forms and against byte spans known to the generator; selectors also in their lenient spellings and each alone; string literals with raw control characters; file names with commas, blanks, leading dots, in sub-directories, named twice; a directory of 300 files (the driver may hold 256 descriptors), some with names that are not UTF-8; directories without files (stdin is no fallback); a file behind a linked directory.",
+            "Each generated stream is delivered in five forms and as file partitions (also cut inside a value); rows carrying all seven input-context selectors are compared across forms and against byte spans known to the generator; selectors also in their lenient spellings and each alone; string literals with raw control characters; file names with commas, blanks, leading dots, in sub-directories, named twice; a directory of 300 files (the driver may hold 256 descriptors), some with names that are not UTF-8; directories without files (stdin is no fallback); a file behind a linked directory, a file forty directories down, one file named twice under --unique with &index selected, an unrelated --set in front of the selectors, a procfs file (reported size 0) named directly and behind a link.",
             "(line, column) is mapped to a byte offset as line start + column - 1; chunking inside BufReader<File> cannot be controlled from the boundary.", "5 C17"),
     "C08": ("exploration", "runtime monitoring: metamorphic/differential oracle (limited run = slice of the unlimited run of the same build), exhaustive over all small streams",
             "Every stream of length <= 4 (quick) / 5 (thorough) over 4 keys x all S,T in 0..6 x 24 pipelines is executed for real and compared with the slice of the unlimited run; random histories up to 40 rows add unique/filter/split/select; a share of all units delivers the records as files instead of stdin.",
@@ -41,8 +41,8 @@ CHECKS = {
     "C20": ("exploration", "runtime monitoring of the real executable as a child process (stdout/stderr/exit status), differential against the in-process run of the same build; failing sinks (closed pipe, /dev/full)",
             "The release binary built from the working tree is spawned on generated inputs under all policies, valid and invalid configurations and three kinds of stdout; streams and exit status are compared with the in-process reference and the exit status also with the documented outcome (a valid configuration fails only under --on-error=panic on malformed input); inputs that cannot be read (stdin = a directory, missing / unreadable file, UNIX socket) must fail with a message, readable inputs reached through links and nested directories must succeed with the plain file's rows; rows of 3-5 KB in 20 % of the units; values typed on a pseudo-terminal (nothing typed after Ctrl-D is read); stdin as a file positioned behind a header.",
             "The in-process run of the same library is the reference for stream contents; process-level behaviour (which fd, exit status, lost output) is decided here, success/failure also against the documented rule.", "5 C20"),
-    "C05": ("exploration", "runtime monitoring: panic hook + catch_unwind + process-death + watchdog-with-isolated-confirmation around the real jawk::go; exhaustive small byte strings in the driver; ASan / valgrind / Miri shards in the thorough tier",
-            "A complete arity sweep (every documented function name x 0..3 (thorough 0..4) arguments x every tuple over 5 (8) boundary arguments); exhaustive over all byte strings up to length 4 (quick, plus a 1/8 shard of length 5) or 6 (thorough) over the 24-byte JSON alphabet; seeded mutations of valid streams up to 4 KiB; generated (50 % ill-typed) expressions with multi-byte characters at chosen offsets and boundary numeric arguments in every option position; a boundary matrix (numeric and number-as-string functions over 23 extreme numbers / 24 extreme decimal strings, string functions over empty and one-character strings); expressions nested 20-64 deep built from one wrapper; exec/trigger with a fixed list of harmless commands (children that fill either pipe, die by signal, outlive the run); release and debug (overflow-checking) builds; driver processes under a 6 GiB address-space cap so that unbounded allocation ends as an attributed abort.",
+    "C05": ("exploration", "runtime monitoring: panic hook + catch_unwind + process-death + watchdog-with-isolated-confirmation around the real jawk::go; exhaustive small byte strings in the driver; a valgrind memcheck shard in every run, ASan / valgrind / Miri shards in the thorough tier",
+            "A complete arity sweep (every documented function name x 0..3 (thorough 0..4) arguments x every tuple over 5 (8) boundary arguments); exhaustive over all byte strings up to length 4 (quick, plus a 1/8 shard of length 5) or 6 (thorough) over the 24-byte JSON alphabet; seeded mutations of valid streams up to 4 KiB; generated (50 % ill-typed) expressions with multi-byte characters at chosen offsets and boundary numeric arguments in every option position; a boundary matrix (numeric and number-as-string functions over 23 extreme numbers / 24 extreme decimal strings, string functions over empty and one-character strings); expressions nested 20-64 deep built from one wrapper; records whose texts make parse_selection parse itself again (directly, mutually, wrapped; chains of twenty); exec/trigger with a fixed list of harmless commands (children that fill either pipe, die by signal, outlive the run); release and debug (overflow-checking) builds; driver processes under a 6 GiB address-space cap so that unbounded allocation ends as an attributed abort.",
             "Only the explored inputs/expressions are covered; non-termination is restated as no return within 20 s confirmed by a 60 s isolated re-run; resource exhaustion (range/collections > 10^4, nesting > 64) is out of the property's domain.", "5 C05, 6"),
     "C11": ("exploration", "runtime monitoring: metamorphic oracle on stdout bytes (out(A.B) = out(A).out(B), also B.A and A.A) for generated stateless pipelines (also under --only-objects-and-arrays with top-level scalars between the records)",
             "Five real runs per generated (pipeline, A, B); units with nested bindings entered for some records only also run every record in a process state of its own; pure byte comparison, no model; expressions from the full generated grammar, all output styles, regex cache sizes 0/1/2.",
